@@ -132,6 +132,13 @@ CLAIMS = {
         'must recover every completed event, printable, nothing uncommitted, per-queue order, and equal the model on every image.',
    note=NOTE_COMMON + 'harness/drv_crash.cpp stand-ins (layout-compatible atomic, memcpy, mutex); points are boundaries of atomic accesses and memcpy calls (not inside memmove); teardown of the session excluded; an image is assumed to show all completed stores.',
    design='4/C08', technique='Coq proof composing the queue invariant (C01) with the functional model of brecovery (C20) + protocol state enumeration for the metadata buffer; real-process memory images through the real tool as correspondence and oracle'),
+ 'C10': dict(
+   text='Theorems (Coq, closed): C10_producer_never_writes_readable_bytes (in every reachable state of the release/acquire queue machine - every capacity, operation sequence and reads-from choice, i.e. every C++11 execution and not only x86 ones - no committed byte the consumer may still read lies in the window the producer may write), '
+        'C10_consumer_reads_only_published_bytes (every batch is a slice of the stream committed before the store it acquired), C10_dataEnd_not_written_while_readable, C10_orders (the release/acquire orders, atomic severity, atomic source id, fence in consume as they stand in the sources), and '
+        'C10_lock_discipline: the table of all accesses to shared Session/Channel members (function, member, under lock_guard or not), regenerated from Session.hpp and SessionWriter.hpp on every run, satisfies the lockset rule (under the session mutex, or atomic, or constructor, or the writer reading the two WriterProp fields only it writes). '
+        'PARTIAL: the lockset rule is decided on a regex-extracted table (trusted translator), not on a semantics of C++; real threads are observed: ThreadSanitizer runs of the unmodified headers with writers created/moved/renamed/destroyed, channel replacement, consume, reconsumeMetadata, setClockSync, setMinSeverity.',
+   note=NOTE_COMMON + 'ThreadSanitizer as observer (does not model atomic_thread_fence; that path is C02). The queue part rests on the C01 model and its correspondence (store-history atomics with happens-before stamps).',
+   design='4/C10', technique='Coq proof on the release/acquire queue machine (race freedom as ownership of cells) + kernel-evaluated lockset check over a source-derived access table; ThreadSanitizer runs as supporting observation'),
 }
 REASON_NOT_BUILT = 'not built yet in this round: no theorem/correspondence for it is registered; not claimed at a lower level by another technique'
 m = {'version': 1, 'setup_cmd': './setup.sh',
